@@ -32,13 +32,20 @@ thread_local! {
     static CLASSES: RefCell<HashMap<u32, Class>> = RefCell::new(HashMap::new());
     static ARENA: RefCell<Vec<Box<[u8]>>> = const { RefCell::new(Vec::new()) };
     static BYTE_MODE: std::cell::Cell<bool> = const { std::cell::Cell::new(false) };
+    static LONG: RefCell<Vec<Sym>> = const { RefCell::new(Vec::new()) };
 }
+
+/// Units in the long word that the pattern character 'L' stands for (one symbolic character
+/// repeated; one word shared by every
+/// text of a run, so that what follows it sits at an offset of 65 536 units or more).
+pub const LONG_WORD: usize = 65_541;
 
 /// Start of a run: forget classes and rendered bytes of the previous run.
 pub fn reset() {
     CLASSES.with(|c| c.borrow_mut().clear());
     ARENA.with(|a| a.borrow_mut().clear());
     BYTE_MODE.with(|b| b.set(false));
+    LONG.with(|l| l.borrow_mut().clear());
 }
 /// In byte mode every ordinary character renders with a leading 0xFF byte
 /// (invalid UTF-8), so that lossy decoding differs from the raw bytes.
@@ -84,6 +91,13 @@ pub fn text_from_pattern(p: &str) -> Vec<Sym> {
                 out.push(fresh_char(Class::Lead));
                 out.push(fresh_char(Class::Cont));
             }
+            'L' => LONG.with(|l| {
+                let mut l = l.borrow_mut();
+                if l.is_empty() {
+                    *l = vec![fresh_char(Class::Ord); LONG_WORD];
+                }
+                out.extend_from_slice(&l);
+            }),
             _ => out.push(fresh_char(Class::Ord)),
         }
     }
